@@ -3,6 +3,8 @@
 //! The input numbers start with the component number understood by `mrun` (the extracted model).
 mod broadcast;
 mod codec;
+mod handle;
+mod lazy;
 mod conn;
 mod endpoint;
 mod net;
@@ -136,6 +138,8 @@ fn main() {
         "robs_set" => robs_set::run(seed, count, &extra, &mut out),
         "broadcast" => broadcast::run(seed, count, &extra, &mut out),
         "io" => io::run(seed, count, &extra, &mut out),
+        "handle" => handle::run(seed, count, &extra, &mut out),
+        "lazy" => lazy::run(seed, count, &extra, &mut out),
         _ => {
             eprintln!("unknown component {comp}");
             std::process::exit(2);
